@@ -58,6 +58,8 @@ def _post_cg(snap, res, graph, event):
 
     ref, ev = snap["ref"], snap["ev"]
     case = {"graph": gd_of(ref), "event": ev}
+    if isinstance(kernel.LOG.case, dict) and kernel.LOG.case.get("again"):
+        case["again"] = True  # second call of a history in which the caller edited the first answer
     if not valid_event(ref, ev) or not ev:
         kernel.count("C18:invalid-input-skipped")
         return
